@@ -302,6 +302,18 @@ def body(T, V, F, S, mode: str):
                     ptr += 1
                     if nd[0] == "comp":
                         break
+        elif nd[0] == "rename":
+            # a rename's only parameter is the value it moves: what arrives under the new key is what it received
+            src, dst = nd[1], nd[2]
+            for pn, origin_idx in ni.context_params.items():
+                if pn != src or dst not in after:
+                    continue
+                if origin_idx is None:
+                    exp = ctx_init.get(pn)
+                else:
+                    exp = tr.snaps[origin_idx - 1].get(pn) if 0 < origin_idx <= len(tr.snaps) else None
+                if not (after[dst] == exp):
+                    return Fail("C02.P2:origin-context-value", "template %s node %d (rename): %s reported from context (node %r) but the value moved is another one" % (T["name"], i + 1, pn, origin_idx))
         prev = after
     return True
 
